@@ -104,6 +104,7 @@ func parseFile(path string) *ast.File {
 	if err != nil {
 		die("parse %s: %v", path, err)
 	}
+	fsets[f] = fset
 	return f
 }
 
@@ -364,9 +365,54 @@ func genConsts(repo, out string) {
 			fmt.Fprintf(&b, "Definition %s_%s : Z := %d.\n", p.pfx, c, n)
 		}
 		fmt.Fprintf(&b, "(* the largest needle Index hands to the runtime's native Index/IndexString: the K of\n   \"if bytealg.NativeIndex && n <= K && nonLetterASCII(substr)\" *)\nDefinition %s_nativeMax : Z := %d.\n", p.pfx, nativeNeedleBound(f, t.consts, p.path))
+		fmt.Fprintf(&b, "(* the products len*2 / len*3 of the length-ratio shortcuts (hasPrefixUnicode, TrimPrefix, hasSuffixUnicode, Index,\n   LastIndex): (source line, is the length converted to int64 before the multiplication) *)\nDefinition %s_shortcut_products : list (Z * bool) := [%s].\n", p.pfx, shortcutProducts(f, fset(f)))
 		b.WriteString("\n")
 	}
 	writeIfChanged(filepath.Join(out, "Consts.v"), b.Bytes())
+}
+
+var fsets = map[*ast.File]*token.FileSet{}
+
+func fset(f *ast.File) *token.FileSet { return fsets[f] }
+
+// shortcutProducts lists, for the five functions with a "needle longer than k times the haystack" shortcut, every
+// multiplication by the literal 2 or 3 and whether its other operand is an int64(...) conversion.
+func shortcutProducts(f *ast.File, fs *token.FileSet) string {
+	want := map[string]bool{"hasPrefixUnicode": true, "TrimPrefix": true, "hasSuffixUnicode": true, "Index": true, "LastIndex": true}
+	var items []string
+	for _, d := range f.Decls {
+		fd, ok := d.(*ast.FuncDecl)
+		if !ok || fd.Recv != nil || !want[fd.Name.Name] || fd.Body == nil {
+			continue
+		}
+		ast.Inspect(fd.Body, func(n ast.Node) bool {
+			be, ok := n.(*ast.BinaryExpr)
+			if !ok || be.Op != token.MUL {
+				return true
+			}
+			lit, other := be.Y, be.X
+			if l, ok := be.X.(*ast.BasicLit); ok && l.Kind == token.INT {
+				lit, other = be.X, be.Y
+			}
+			l, ok := lit.(*ast.BasicLit)
+			if !ok || l.Kind != token.INT || (l.Value != "2" && l.Value != "3") {
+				return true
+			}
+			wide := false
+			if ce, ok := other.(*ast.CallExpr); ok {
+				if id, ok := ce.Fun.(*ast.Ident); ok && id.Name == "int64" && len(ce.Args) == 1 {
+					wide = true
+				}
+			}
+			line := 0
+			if fs != nil {
+				line = fs.Position(be.Pos()).Line
+			}
+			items = append(items, fmt.Sprintf("(%d, %v)", line, wide))
+			return true
+		})
+	}
+	return strings.Join(items, "; ")
 }
 
 // nativeNeedleBound finds, in func Index, the one if statement whose condition is a conjunction containing
